@@ -8,10 +8,12 @@ package home
 
 //@ func (ab *authRateLimiter) checkLocked(usrID string, now time.Time) (left time.Duration)
 //@   property C12
+//@   requires held(ab.failedAuthsLock)
 //@   ensures blocked: left > 0 <==> (usrID in ab.failedAuths && ab.failedAuths[usrID].num >= ab.maxAttempts && inst(ab.failedAuths[usrID].until) > inst(now))
 
 //@ func (ab *authRateLimiter) incLocked(usrID string, now time.Time)
 //@   property C12
+//@   requires held(ab.failedAuthsLock)
 //@   requires ab.failedAuths != nil
 //@   requires usrID in ab.failedAuths ==> ab.failedAuths[usrID].num < 18446744073709551615
 //@   modifies entries(ab.failedAuths)
@@ -24,6 +26,7 @@ package home
 
 //@ func (ab *authRateLimiter) cleanupLocked(now time.Time)
 //@   property C12
+//@   requires held(ab.failedAuthsLock)
 //@   modifies entries(ab.failedAuths)
 //@   ensures kept: forall u string :: (u in ab.failedAuths) == (old(u in ab.failedAuths) && !(inst(now) > inst(old(ab.failedAuths[u]).until)))
 //@   ensures values: forall u string :: u in ab.failedAuths ==> ab.failedAuths[u] == old(ab.failedAuths[u])
@@ -34,7 +37,7 @@ package home
 //@ func (ab *authRateLimiter) remove(usrID string)
 //@   property C12
 //@   requires !held(ab.failedAuthsLock)
-//@   modifies entries(ab.failedAuths), LockW, lastNow
+//@   modifies entries(ab.failedAuths), lastNow
 //@   ensures !(usrID in ab.failedAuths)
 //@   ensures forall u string :: u != usrID ==> (u in ab.failedAuths) == old(u in ab.failedAuths) && ab.failedAuths[u] == old(ab.failedAuths[u])
 //@   ensures !held(ab.failedAuthsLock)
@@ -47,7 +50,7 @@ package home
 //@ func (ab *authRateLimiter) check(usrID string) (left time.Duration)
 //@   property C12
 //@   requires !held(ab.failedAuthsLock)
-//@   modifies entries(ab.failedAuths), LockW, lastNow
+//@   modifies entries(ab.failedAuths), lastNow
 //@   ensures !held(ab.failedAuthsLock)
 //@   ensures blocked-needs-record: left > 0 ==> old(usrID in ab.failedAuths) && old(ab.failedAuths[usrID]).num >= ab.maxAttempts
 //@   ensures record-kept: left > 0 ==> usrID in ab.failedAuths && ab.failedAuths[usrID] == old(ab.failedAuths[usrID])
@@ -59,7 +62,7 @@ package home
 //@   property C12
 //@   requires ab.failedAuths != nil && !held(ab.failedAuthsLock)
 //@   requires usrID in ab.failedAuths ==> ab.failedAuths[usrID].num < 18446744073709551615
-//@   modifies entries(ab.failedAuths), LockW, lastNow
+//@   modifies entries(ab.failedAuths), lastNow
 //@   ensures !held(ab.failedAuthsLock)
 //@   ensures present: usrID in ab.failedAuths
 //@   ensures num: ab.failedAuths[usrID].num == (old(usrID in ab.failedAuths) ? old(ab.failedAuths[usrID].num) + 1 : 1)
@@ -292,3 +295,16 @@ package home
 //@ func (a *Auth) newCookie(req loginJSON, addr string) (c *http.Cookie, err error)
 //@   trusted
 //@   modifies nothing
+
+// ---- C05: lock discipline (ghost lock state; every access to a guarded field in the package is an obligation) ----
+//@ guarded authRateLimiter.failedAuths by failedAuthsLock
+//@ guarded Auth.sessions by lock
+//@ guarded Auth.users by lock
+
+// Called from InitAuth before the Auth object is shared.
+//@ func (a *Auth) loadSessions()
+//@   construction
+//@   modifies *
+//@ func (a *Auth) loadSessions$2(k []byte, v []byte) (r0 error)
+//@   construction
+//@   modifies *
